@@ -12,7 +12,7 @@ cp -r $src/demo/. $wt/ 2>/dev/null
 demo_cmd=$(python3 -c "
 import json,re
 c=json.load(open('$src/meta.json'))['demo_cmd']
-c=re.sub(r'/tmp/seed[234567]?/C[0-9]+', '$wt', c)
+c=re.sub(r'/tmp/seed[2345678]?/C[0-9]+', '$wt', c)
 print(c)")
 echo "== demo without the change: $demo_cmd"
 ( eval "$demo_cmd" ) > /tmp/seedverify.out 2>&1; rc_clean=$?
